@@ -382,6 +382,44 @@ def checked_product(prog, body, operand, depth=0, subst=None):
     return out
 
 
+def flag_test(c, fv):
+    """the condition "flag `fv` is set in self": True for a positive test, False for its negation, None when not understood.
+    `self.bits & fv.bits != 0` / `> 0` / `== fv.bits` (either operand order; for a single-bit flag, which FACE-NAMES checks per row,
+    these coincide), `self.contains(fv)`; `== 0`, `!= fv.bits` and a leading `!` are the negation."""
+    neg = False
+    while c is not None and c.get("k") == "un" and c["op"] == "!":
+        neg, c = not neg, c["e"]
+    while c is not None and c.get("k") == "paren":
+        c = c["e"]
+    if c is None:
+        return None
+    if c.get("k") == "mcall" and c["m"] in ("contains", "intersects") and len(c["args"]) == 1 and expr_text(unref(c["recv"])) == "self" and is_path(unref(c["args"][0]), fv):
+        return not neg
+
+    def is_and(e):
+        e = unref(e)
+        return e is not None and e.get("k") == "bin" and e["op"] == "&" and {expr_text(unref(e["l"])), expr_text(unref(e["r"]))} == {"self.bits", fv + ".bits"}
+
+    if c.get("k") == "bin" and c["op"] in ("!=", "==", ">", "<"):
+        l, r, op = c["l"], c["r"], c["op"]
+        if is_and(r):
+            l, r, op = r, l, {"<": ">", ">": "<"}.get(op, op)
+        if not is_and(l):
+            return None
+        if lit_int(r) == 0 and r.get("k") == "lit":
+            if op in ("!=", ">"):
+                return not neg
+            if op == "==":
+                return neg
+            return None
+        if expr_text(unref(r)) == fv + ".bits":
+            if op == "==":
+                return not neg
+            if op == "!=":
+                return neg
+    return None
+
+
 def eval_const(e, env):
     k = e.get("k")
     if k == "lit" and e["t"] == "int":
@@ -618,10 +656,17 @@ def run(ctx):
             cval = vs[0] if len(vs) == 1 else None
         per_px = None
         # the per-pixel write: in a `for` loop of serialize, or in the closure of an iterator driver (for_each / try_for_each / try_fold / fold)
+        # (private helpers that hold the encoding loop — also when shared with another caller — are expanded in place, so the write
+        # is found by what serialize executes and not by where it is written)
         wa = []
-        for wb in [sb] + [b for b in prog.bodies if b.closure_root == sb.path]:
+        sbi = prog.inlined(sb.path, nested=True, multi=True) or sb
+        roots = {sb.path} | {blk.get("inl_from") for blk in sbi.blocks if blk.get("inl_from") and prog.body(blk["inl_from"]) is not None and prog.body(blk["inl_from"]).file == sb.file}
+        for wb in [sbi] + [b for b in prog.bodies if b.closure_root in roots]:
             for bb, t in wb.calls():
                 if call_matches(t, r"Write::write_all$") and not wb.blocks[bb].get("cleanup"):
+                    frm = wb.blocks[bb].get("inl_from")
+                    if frm and prog.body(frm) is not None and prog.body(frm).file != sb.file:
+                        continue      # the encoder's own internals (e.g. finish() flushing its tail), not a write of serialize
                     wa.append((bb, t, wb))
         in_loop = False
         if len(wa) == 1:
@@ -631,12 +676,12 @@ def run(ctx):
             if m:
                 tm = re.fullmatch(r"\[u8; (\d+)\]", wb.locals[int(m.group(1))]["ty"])
                 per_px = int(tm.group(1)) if tm else None
-            if wb is sb:
-                in_loop = any(wbb in b for b in sb.cfg().loops().values())
+            if wb is sbi:
+                in_loop = any(wbb in b for b in sbi.cfg().loops().values())
             else:
-                for bb, t in sb.calls():
+                for bb, t in sbi.calls():
                     if call_matches(t, r"Iterator::(for_each|try_for_each|try_fold|fold)$") and any(
-                            ("closure:%s[" % wb.path.split("::")[-1]) in expr_mir(sb, a) for a in t["args"]):
+                            ("closure:%s[" % wb.path.split("::")[-1]) in expr_mir(sbi, a) for a in t["args"]):
                         in_loop = True
         ctx.instance("IMAGE-CHANNELS", {"serialised_channels": cval, "bytes_written_per_pixel": per_px, "write_all_sites": len(wa)})
         if cval is None or per_px is None or len(wa) != 1 or not in_loop:
@@ -942,8 +987,17 @@ def run(ctx):
         fv, nv = [e["name"] for e in fors[0]["pat"]["elems"]]
         cond = find_all(fors[0]["body"], lambda n: n.get("k") == "if")
         ct = expr_text(cond[0]["cond"]) if cond else ""
-        if not (re.search(r"self\.bits & %s\.bits\) != 0" % fv, ct) or re.search(r"self\.contains\(\*?%s\)" % fv, ct)):
+        pol = flag_test(cond[0]["cond"], fv) if cond else None
+        if pol is None:
             raise NotUnderstood("names(): flag test %s" % ct)
+        # the name is pushed exactly when the flag is set (every flag is a single bit: checked per row below)
+        def pushes(n):
+            return bool(find_all(n, lambda x: x.get("k") == "mcall" and x["m"] == "push" and x["args"] and is_path(unref(x["args"][0]), nv))) if n else False
+        in_then, in_else = pushes(cond[0]["then"]), pushes(cond[0].get("else"))
+        after = pushes(fors[0]["body"]) and not in_then and not in_else
+        skips = bool(find_all(cond[0]["then"], lambda x: x.get("k") == "continue"))
+        if not ((pol and in_then and not in_else and not after) or (not pol and not in_then and (in_else or (after and skips)))):
+            raise NotUnderstood("names(): the name is not pushed exactly under the flag test %s" % ct)
         # from_str_named
         fm = [m for m in find_all(fsn, lambda n: n.get("k") == "match") if any(pat_strings(a["pat"]) for a in m["arms"])]
         if len(fm) != 1:
